@@ -41,7 +41,7 @@ run_grammar = work.run_grammar
 
 def run_shard(rec):
     quick = rec.tier == 'quick'
-    budget = 55 if quick else 800
+    budget = 300 if quick else 800
     rec.deadline = time.time() + budget
     maxlen = 4 if quick else 6
     idx = 0
